@@ -44,11 +44,11 @@ def run(repo, rep, tier):
     blk = blocks[0]
     tracked = {'hostkey_min_good', 'cakey_min_good', 'hostkey_min_warn', 'cakey_min_warn', 'hostkey_warn_str', 'cakey_warn_str', 'key_fail_comments', 'key_warn_comments'}
     rsa_sizes = [1, 1023, 1024, 2047, 2048, 2049, 3071, 3072, 3073, 4096, 16384]
-    ecc_sizes = [1, 223, 224, 225, 255, 256, 257, 521]
+    ecc_sizes = [1, 223, 224, 225, 255, 256, 257, 448, 521]
     if tier == 'quick':
         rsa_sizes = [1024, 2047, 2048, 3071, 3072, 4096]
-        ecc_sizes = [223, 224, 255, 256]
-    host_kinds = [('ssh-rsa', False, 'rsa'), ('rsa-sha2-512', False, 'rsa'), ('ssh-ed25519', False, 'ecc'), ('ecdsa-sha2-nistp256', False, 'ecc'), ('ssh-dss', False, 'rsa'),
+        ecc_sizes = [223, 224, 255, 256, 448]
+    host_kinds = [('ssh-rsa', False, 'rsa'), ('rsa-sha2-512', False, 'rsa'), ('ssh-ed25519', False, 'ecc'), ('ssh-ed448', False, 'ecc'), ('ecdsa-sha2-nistp256', False, 'ecc'), ('ssh-dss', False, 'rsa'),
                   ('ssh-rsa-cert-v01@openssh.com', True, 'rsa'), ('ssh-ed25519-cert-v01@openssh.com', True, 'ecc')]
     ca_kinds = [('', None), ('ssh-rsa', 'rsa'), ('ssh-ed25519', 'ecc'), ('ecdsa-sha2-nistp384', 'ecc')]
     ncases = 0
